@@ -58,6 +58,9 @@ import (
 
 var pipeDebug bool
 
+// pipeGroupMessages is the -group-error-messages flag the pipeline runs with (default as in NilAway: on).
+var pipeGroupMessages = true
+
 type pipeResult struct {
 	diags    []analysis.Diagnostic
 	fset     *token.FileSet
@@ -130,7 +133,7 @@ func pipeAnalysePkg(path, fileName, src string, deps []pipeDep) (res pipeResult,
 	if err != nil {
 		panic("generated source does not type-check: " + err.Error() + "\n" + src)
 	}
-	conf := config.VerifConfig([]string{""}, nil, false)
+	conf := config.VerifConfigGrouping([]string{""}, nil, pipeGroupMessages)
 	results := map[*analysis.Analyzer]interface{}{config.Analyzer: conf}
 	pass := &analysis.Pass{
 		Fset: fset, Files: []*ast.File{file}, Pkg: pkg, TypesInfo: info, TypesSizes: types.SizesFor("gc", "amd64"), ResultOf: results,
@@ -243,7 +246,7 @@ func pipeAnalysePkg(path, fileName, src string, deps []pipeDep) (res pipeResult,
 	return res, facts
 }
 
-var ndHarnesses = map[string]func(){"Harness_Pipe_Smoke": Harness_Pipe_Smoke, "Harness_P08": Harness_P08, "Harness_P01": Harness_P01, "Harness_P07": Harness_P07, "Harness_P01L": Harness_P01L, "Harness_P08_Ok": Harness_P08_Ok, "Harness_P01X": Harness_P01X, "Harness_P01R": Harness_P01R}
+var ndHarnesses = map[string]func(){"Harness_Pipe_Smoke": Harness_Pipe_Smoke, "Harness_P08": Harness_P08, "Harness_P01": Harness_P01, "Harness_P07": Harness_P07, "Harness_P01L": Harness_P01L, "Harness_P08_Ok": Harness_P08_Ok, "Harness_P01X": Harness_P01X, "Harness_P01R": Harness_P01R, "Harness_P13": Harness_P13, "Harness_P10": Harness_P10}
 
 // Harness_Pipe_Smoke: two fixed programs, one with an unguarded dereference of a nil local, one guarded.
 func Harness_Pipe_Smoke() {
